@@ -22,6 +22,11 @@ for d in sorted(glob.glob(os.path.join(VERIF, "seeded", "*"))):
         bad += 1
         continue
     demo = os.path.join(d, demos[0])
+    meta_path = os.path.join(d, "meta.json")
+    if os.path.exists(meta_path):
+        import json  # pylint: disable=import-outside-toplevel
+
+        demo = os.path.join(d, json.load(open(meta_path)).get("demo", demos[0]))
     cmd = ["bash", demo] if demo.endswith(".sh") else [mut.PY, demo]
     base = subprocess.run(cmd, env=dict(os.environ, PYTHONPATH="/repo"), cwd=d, capture_output=True, text=True, timeout=300)
     dst = mut.patched_copy(patch)
